@@ -22,7 +22,8 @@ Theorem C13_code_constants :
   used_threshold = mtime_interval /\ window_upper = trim_interval /\
   window_lower = - mtime_interval /\ cutoff_offset = - trim_limit - mtime_interval /\
   0 < mtime_interval /\ 0 < trim_interval /\ 0 < trim_limit /\
-  trim_subdir_count = open_subdir_count /\ 0 <= trim_subdir_count.
+  trim_subdir_count = open_subdir_count /\ 0 <= trim_subdir_count /\
+  parse_base = 10 /\ parse_bits = 64.
 Proof. exact consts_rel. Qed.
 Print Assumptions C13_code_constants.
 
